@@ -343,7 +343,7 @@ def rule_store(R):
                 r = peel(r)
                 if isinstance(r, tuple) and r[0] == "await":
                     r = peel(r[1])
-                return is_call(r, "write_current") and nm == ["@Ok", "0"]
+                return (is_call(r, "write_current") or (isinstance(r, tuple) and r[0] == "call" and r[4] == IO_WRITE)) and nm == ["@Ok", "0"]
             has_count = is_count(a) or is_count(b2)
             has_before = ["written"] in names
             okp = has_count and has_before
